@@ -266,7 +266,7 @@ def run(ck):
         "model_vs_oracle": dict(mvo, note="the model predicts the same lost deletes as the implementation shows (reason tags below)"),
         "reason_tags": reasons,
         "distribution": S.summarize_distribution(traces),
-        "exhaustive": exh,
+        "exhaustive_templates": exh,
     })
     return ck.finish(level="proof", trusted_base=S.TRUSTED)
 
